@@ -13,8 +13,17 @@ func init() {
 }
 
 func genC11(r *PRNG, tier string) *Scenario {
-	scn := genPair(r, tier, "C11", pairOpts{minWBuf: 0, controllers: 3, noCtlMsgs: false})
+	o := pairOpts{minWBuf: 0, controllers: 3, noCtlMsgs: false}
+	if r.Chance(1, 3) {
+		// several connections sharing one PreparedMessage and one write buffer pool
+		o.links, o.sharePool, o.prepared, o.prepMore = 2, r.Bool(), true, r.Bool()
+		o.controllers = 1
+	}
+	scn := genPair(r, tier, "C11", o)
 	scn.Class = "contended"
+	if o.links > 1 {
+		scn.Class = "contended-shared"
+	}
 	l := &scn.Links[0]
 	// controllers get deadlines around the stall lengths
 	dls := []int{0, 100, 1000, 1500, 30000, 3600000}
@@ -61,15 +70,19 @@ func oracleC11(run *Run) {
 	for _, p := range run.Panics {
 		run.fail("C11", "panic", "panic", "%s", p)
 	}
-	c, s := pairEnds(run, 0)
-	if c == nil {
-		run.fail("HARNESS", "no-connection", "hs", "pair handshake failed")
-		return
-	}
 	if run.Deadlock != "" || run.Leaked > 0 {
 		run.fail("C11", "deadlock", "leaked", "%d tasks were still blocked inside the library after every connection had been closed (%s)", run.Leaked, clip(run.Deadlock))
 	}
-	for _, pr := range [][2]*RealEnd{{c, s}, {s, c}} {
+	var pairs [][2]*RealEnd
+	for li := range run.Scn.Links {
+		c, s := pairEnds(run, li)
+		if c == nil {
+			run.fail("HARNESS", "no-connection", "hs", "pair handshake failed on link %d", li)
+			return
+		}
+		pairs = append(pairs, [2]*RealEnd{c, s}, [2]*RealEnd{s, c})
+	}
+	for _, pr := range pairs {
 		e, peer := pr[0], pr[1]
 		who := endName(e)
 		raw := wsTap(e)
@@ -145,7 +158,7 @@ func checkControlAttribution(run *Run, prop string, e, peer *RealEnd, tv *TapVie
 	want := map[string]int{}
 	for _, t := range e.Tasks {
 		for _, r := range t.Hist {
-			if (r.Op == "WriteControl" || r.Op == "WriteMessage" || r.Op == "Message") && r.MsgType >= 8 {
+			if (r.Op == "WriteControl" || r.Op == "WriteMessage" || r.Op == "Message" || r.Op == "WritePreparedMessage") && r.MsgType >= 8 {
 				// a failed call may still have written its frame (e.g. transport error after the write): allow, never require
 				want[fmt.Sprintf("%d:%x", r.MsgType, r.Data)]++
 			}
@@ -154,7 +167,7 @@ func checkControlAttribution(run *Run, prop string, e, peer *RealEnd, tv *TapVie
 	pings := map[string]int{}
 	for _, t := range peer.Tasks {
 		for _, r := range t.Hist {
-			if (r.Op == "WriteControl" || r.Op == "WriteMessage" || r.Op == "Message") && r.MsgType == 9 {
+			if (r.Op == "WriteControl" || r.Op == "WriteMessage" || r.Op == "Message" || r.Op == "WritePreparedMessage") && r.MsgType == 9 {
 				pings[string(r.Data)]++
 			}
 		}
